@@ -138,7 +138,7 @@ CHECKS['C11'] = {
 }
 
 CHECKS['C01'] = {
-    'verus_units': ['extract', 'valuetype'],
+    'verus_units': ['extract', 'valuetype', 'parser'],
     'clause_prefixes': ['c01'],
     'technique': 'contract-based deductive verification (Verus): ColumnParsing::extract_using_regex, the Regex / MultiRegex-array / MultiRegex-timestamp arms of ColumnParsing::extract, ColumnDefinition::default_value and TableDefinition::extract extracted from /repo against a specification of "the referenced group of the referenced pattern, typed"',
     'claim': 'Proof for all column definitions, match results and lines that each regex/split column holds exactly sem_ref(type, line, reference, default): the text of the referenced group of the referenced pattern converted by the declared type (BOOLEAN = presence, NULL when not a literal, DEFAULT/NULL when pattern or group did not take part), arrays position by position, TIMESTAMP columns built from exactly the integer groups as mathematical integers (an out-of-range part gives the default, never a wrapped value), TRIM on TEXT only, and that the row is all columns in definition order or empty at the first NULL NOT NULL column.',
